@@ -3,7 +3,7 @@
 From Coq Require Import ZArith List Bool.
 From IPV8V Require Import gen.G09_rules model.M09_reclaim model.M09_network spec.S09_reclaim
   proofs.P09_inv proofs.P09_network_frame proofs.P09_network_node proofs.P09_network_step
-  proofs.P09_network_inv proofs.P09_network_main props.C09_path.
+  proofs.P09_network_inv proofs.P09_network_main proofs.P09_network_binv proofs.P09_network_bmain props.C09_path.
 Import ListNotations.
 Open Scope Z_scope.
 
@@ -54,3 +54,55 @@ Theorem event_frame : forall st I s e,
   frame st I (ev_touch s e) s (fst (step_at st s e)) /\ ev_outs I s e (snd (step_at st s e)).
 Proof. exact C09_path.event_frame. Qed.
 Print Assumptions event_frame.
+
+(* ---- circuits under construction (see props/C09_path.v) *)
+Theorem B_build_formula : forall st D goal hops,
+  B_build st D goal hops
+  = s_next_hop_timeout st * (s_circuit_timeout st / s_next_hop_timeout st + goal - 1) + s_remove_delay st
+    + (2 * Z.of_nat hops * D + (s_max_inactive st + s_sweep st + s_remove_delay st)).
+Proof. exact C09_path.B_build_formula. Qed.
+Print Assumptions B_build_formula.
+
+Theorem path_bounded_reclaim_building_partial : forall st, settings_ok st ->
+  forall D F O x0 h tq names t0 tr1 tr2 T,
+  0 <= D -> nodup_b names = true ->
+  nrun_timely st (init_net names t0) tr1 = true ->
+  let wq := nrun st (init_net names t0) tr1 in
+  build_shape_b st F O x0 h tq wq = true ->
+  brun_ok st D F O x0 tq wq tr2 = true ->
+  let wT := nrun st wq tr2 in
+  all_on_time st wT T = true ->
+  tq + B_path st D h < T ->
+  net_holds wT (map fst F) = false.
+Proof. exact C09_path.path_bounded_reclaim_building_partial. Qed.
+Print Assumptions path_bounded_reclaim_building_partial.
+
+Theorem path_bounded_reclaim_building_from_partial : forall st, settings_ok st ->
+  forall D F O x0 h tq wq tr T,
+  0 <= D ->
+  (forall n s, aget n (nodes wq) = Some s -> inv st s) ->
+  build_shape_b st F O x0 h tq wq = true ->
+  brun_ok st D F O x0 tq wq tr = true ->
+  tq + B_path st D h < T ->
+  forall n s x, aget n (nodes (nrun st wq tr)) = Some s -> on_time st s T = true ->
+    In x (map fst F) -> holds_id s x = false.
+Proof. exact C09_path.path_bounded_reclaim_building_from_partial. Qed.
+Print Assumptions path_bounded_reclaim_building_from_partial.
+
+Theorem building_bound_from_creation : forall st D goal h tc T,
+  tc + B_build st D goal h < T <-> (tc + build_bound st goal + s_remove_delay st) + B_path st D h < T.
+Proof. exact C09_path.building_bound_from_creation. Qed.
+Print Assumptions building_bound_from_creation.
+
+Theorem building_stops_in_time : forall st, settings_ok st -> forall s t x c,
+  inv st s -> on_time st s t = true -> aget x (circuits s) = Some c -> c_closing c = false ->
+  c_hops c < c_goal c -> t <= creation (c_ro c) + build_bound st (c_goal c) + s_remove_delay st.
+Proof. exact C09_path.building_stops_in_time. Qed.
+Print Assumptions building_stops_in_time.
+
+Theorem building_invariant_preserved : forall st D F O x0 h tq,
+  settings_ok st -> 0 <= D -> fam_ok_b F O x0 h = true -> forall w tl,
+  wgoodF st D F O x0 h tq w -> winv st w -> bstep_ok st D F O x0 tq w tl = true ->
+  wgoodF st D F O x0 h tq (nstep st w tl).
+Proof. exact C09_path.building_invariant_preserved. Qed.
+Print Assumptions building_invariant_preserved.
